@@ -4,7 +4,10 @@
 # `verif`, -race for the concurrency properties) and runs it.
 set -u
 cd "$(dirname "$0")"
-export VERIF_ROOT="$PWD"
+here="$PWD"
+# VERIF_OUT_ROOT (seedrun.py): evidence / replays / known findings of a run
+# against a changed tree live in a scratch root, not in /verif
+export VERIF_ROOT="${VERIF_OUT_ROOT:-$PWD}"
 export GOFLAGS=-mod=mod GOPROXY=off
 unset GOSUMDB GOTOOLCHAIN 2>/dev/null || true
 export CGO_ENABLED=${CGO_ENABLED:-1}
@@ -42,9 +45,9 @@ mybin="$lc.$$"
 trap 'rm -f "bin/$mybin" "bin/file.d-verif.$$" "bin/build-$id.$$.log"' EXIT
 build "$mybin" "./cmd/$lc" $race
 if [ "$id" = C03 ]; then
-  (cd /repo && go build -tags verif "${overlay[@]}" -o "$VERIF_ROOT/bin/file.d-verif.$$" ./cmd/file.d) 2>bin/build-$id-filed.log || {
+  (cd /repo && go build -tags verif "${overlay[@]}" -o "$here/bin/file.d-verif.$$" ./cmd/file.d) 2>bin/build-$id-filed.log || {
     echo "ERROR build of cmd/file.d failed:"; tail -30 bin/build-$id-filed.log; exit 2; }
-  export VERIF_FILED_BIN="$VERIF_ROOT/bin/file.d-verif.$$"
+  export VERIF_FILED_BIN="$here/bin/file.d-verif.$$"
 fi
 
 "./bin/$mybin" "$mode" "$@"
